@@ -329,6 +329,17 @@ func cmdRoundTrip(args []string) {
 			bad("accept", fmt.Sprintf("the document is refused: %v", err))
 			continue
 		}
+		// "every schema a root accepts": the root may have refused documents since. Loads that are refused after having
+		// added types and directives (an undefined reference, a validation error, a duplicate) leave the schema - and
+		// therefore what is printed - as it was
+		if hi%2 == 0 {
+			for _, refused := range []string{"type Aardvark {\n  x: NoSuchType\n}\ndirective @alpha on OBJECT\n", "scalar Abacus\ntype Abc {\n}\n",
+				"enum Aaa {\n  X\n}\ninput Aab {\n  o: Aardvark2\n}\ntype Aardvark2 {\n  x: Int\n}\n"} {
+				if err := root1.ParseString(refused); err == nil {
+					bad("accept", "a document that must be refused was accepted: "+refused)
+				}
+			}
+		}
 		c1 := sch.ReadBack(root1)
 		if hs[hi].Tag != "numeric" { // numeric named points are compared through the round trip only
 			if ds := sch.Diff(exp, c1); len(ds) > 0 {
